@@ -1117,7 +1117,12 @@ class ExprMixin:
             if name.startswith("__") and not name.endswith("__"):
                 # a name-mangled private method cannot be overridden by a subclass: executed in place
                 return self.inline(st, (fm[0], {}, self.src.modules[fm[1].module], fm[1]), args, kwargs, node, self_v=recv)
-            raise Unsupported(f"method {ci.name}.{name} has no contract")
+            overriders = [c_.name for c_ in self.src.subclasses_of(fm[1].qname) if name in c_.methods]
+            if not overriders:
+                # no class of the package overrides it: the body that runs is this one for every optimizer of the package
+                self.ctx.tags.add(f"A_not_overridden:{fm[1].name}.{name}")
+                return self.inline(st, (fm[0], {}, self.src.modules[fm[1].module], fm[1]), args, kwargs, node, self_v=recv)
+            raise Unsupported(f"method {ci.name}.{name} has no contract (overridden by {overriders[:3]})")
         raise Unsupported(f"method {name} on {recv.t} at {self.loc(node)}")
 
     def apply_contract(self, st: State, c, fdef, mi, env, node, fresh_self=False):
